@@ -415,3 +415,6 @@ def run(ck):
     ck.attempt(rule_register)
     ck.attempt(rule_algebra)
     ck.attempt(rule_subset)
+    # names, rows and columns stay aligned through a JSON round trip only if the station mapping keeps its order
+    from .c09 import rule_station_order_roundtrip
+    ck.attempt(rule_station_order_roundtrip, rid="C12.R7")
